@@ -8,6 +8,7 @@ EXPLANATION = ("C10: structural conditions for terminating teardown: no lock re-
                "lock, hold/release pairing of object references on every path, aio field completeness "
                "(close/stop/fini slots), teardown ordering in pipe_reap / sock_shutdown, handle validity guards."
                " Also: references taken with find/hold/create are released or consumed on every path and never released before they were taken (R1); close functions examine every parked operation on every path (R5); a conditional wake counts only if its guard is established for the waiter (R9).")
+EXPLANATION += " Round 3: the wake that lets a closer go is the releasing thread's last touch of what the closer finalizes (R7); a refused hold is not followed by a release (R1); an unlinked waiter is not dropped (R10); nothing is parked after close unless a late drain or a closed test covers it (R11)."
 
 INLINE = ("nni_aio_finish_sync", "nni_aio_completions_run", "nni_task_exec")
 BLOCKING = ("nni_aio_stop", "nni_aio_wait", "nni_task_wait", "nni_thr_fini", "nni_thr_wait", "nni_aio_fini",
@@ -450,6 +451,8 @@ RELEASE = {
     "listener": ("nni_listener_rele", "nni_listener_close"),
     "pipe": ("nni_pipe_rele",),
 }
+# holds that answer NNG_ECLOSED instead of taking the reference when the object is already closed
+FALLIBLE_HOLD = ("nni_dialer_hold", "nni_listener_hold")
 # calls that keep the caller's hold on the socket when they succeed (the endpoint inherits it)
 INHERIT = {"nni_dialer_create": 1, "nni_dialer_create_url": 1, "nni_listener_create": 1, "nni_listener_create_url": 1}
 
@@ -482,6 +485,18 @@ def rule_refs(ctx):
                 var = arg["n"]
             ve = f.value_edges(a)
             if not ve:
+                if not byaddr and a.node["fn"] in FALLIBLE_HOLD:
+                    # the hold can be refused (object already closing); with the answer thrown away, what follows gives
+                    # back a reference that may never have been taken
+                    rel_after = [c for c in f.calls(RELEASE[kind]) if (c.b, c.i) in f.reach((a.b, a.i + 1)) and any(
+                        (lambda x: x is not None and x.get("k") == "var" and x["n"] == var)(f.expand(z)) for z in c.node["args"] if z is not None)]
+                    if rel_after:
+                        ctx.fail(r, f, "%s result ignored, then %s" % (a.node["fn"], rel_after[0].node["fn"]), a.line,
+                                 "%s(%s) at line %s can be refused (the object is being closed by another thread) but its result "
+                                 "is ignored; %s(%s) at line %s then releases a reference this function may not hold: the count "
+                                 "drops under the other thread, which is still using the object when it is reaped"
+                                 % (a.node["fn"], var, a.line, rel_after[0].node["fn"], var, rel_after[0].line))
+                        continue
                 # result discarded or returned directly: `return (nni_X_find(...))` hands the reference to the caller
                 r.ob(f, "%s line %s: result handed to the caller" % (a.node["fn"], a.line))
                 continue
@@ -809,6 +824,158 @@ def rule_unlinked(ctx):
         raise AnalysisBroken("only %d unlink sites of objects with parked operations" % n)
 
 
+# ---------------------------------------------------------------------------
+# R11: nothing is parked on an object after its close has drained it
+
+PARK_CALLS = ("nni_list_append", "nni_aio_list_append", "nni_list_prepend")
+
+
+def drains(prog, f):
+    """(lists, fields, flags) of a function that completes parked operations with NNG_ECLOSED: the aio lists it empties, the
+    parked-aio pointer fields it clears, and the boolean fields it sets (the 'closed' marks a later submitter could test)"""
+    lists, fields, flags = set(), set(), set()
+    closed_fin = []
+    for c in f.calls(("nni_aio_finish_error", "nni_aio_abort", "nni_aio_finish")):
+        a = [f.expand(x) if x is not None else None for x in c.node["args"]]
+        if len(a) > 1 and a[1] is not None and a[1].get("k") == "enum" and a[1].get("n") == "NNG_ECLOSED":
+            closed_fin.append(c)
+    if not closed_fin:
+        return lists, fields, flags
+    # a drain made under `if (x->closed)`: that flag is the mark
+    from .. import guards as G
+    for bid, k, atom, val in G.edge_facts(f):
+        if val and atom.get("k") == "mem" and (atom.get("t") or "") in ("bool", "_Bool") and any(
+                G.dominated(f, (c.b, c.i), {bid: k}) for c in closed_fin):
+            flags.add(last_field(atom))
+    for c in f.calls(("nni_list_first",)):
+        lf = last_field(f.expand(c.node["args"][0])) if c.node["args"] else None
+        if lf:
+            lists.add(lf)
+    for t in f.assigns():
+        l = t.node["lhs"]
+        if l.get("k") != "mem":
+            continue
+        if is_null(f.expand(t.node["rhs"])) and (l.get("t") or "").replace(" ", "") in ("nni_aio*", "nng_aio*", "structnng_aio*"):
+            fields.add(last_field(l))
+        if (l.get("t") or "") in ("bool", "_Bool") and const_of(f.expand(t.node["rhs"])) not in (None, 0):
+            flags.add(last_field(l))
+    return lists, fields, flags
+
+
+def rule_no_park_after_close(ctx):
+    from .. import guards as G
+    r = ctx.rule("C10.R11", "T2", "nothing is parked after close: where a close function completes with NNG_ECLOSED the operations parked on "
+                 "a list or in a field of an object, every other function that parks an operation there first tests, under the "
+                 "same lock, a flag that the close function set -- an operation submitted by another thread just after the drain "
+                 "is otherwise parked for good: it never completes and (for the blocking calls) close waits for its reference", floor=20)
+    prog = ctx.prog
+    scope = [f for f in prog.functions if not f.cfg_failed and ("/core/" in "/" + f.file or "/sp/" in "/" + f.file)
+             and not f.file.endswith("_test.c")]
+    callers = prog.callers()
+    byfile = defaultdict(list)
+    for f in scope:
+        byfile[f.file].append(f)
+    n = 0
+    done = set()
+    # the closed marks of a file: boolean fields set by a function that completes operations with NNG_ECLOSED (or that
+    # calls one of the same file)
+    fileflags = defaultdict(set)
+    for file, fs in byfile.items():
+        dr = {f_.name for f_ in fs if any(
+            (lambda a: len(a) > 1 and a[1] is not None and a[1].get("k") == "enum" and a[1].get("n") == "NNG_ECLOSED")(
+                [f_.expand(x) if x is not None else None for x in c.node["args"]])
+            for c in f_.calls(("nni_aio_finish_error", "nni_aio_abort", "nni_aio_finish")))}
+        for f_ in fs:
+            if f_.name in dr or any(c.node.get("fn") in dr for c in f_.calls()):
+                for t in f_.assigns():
+                    l = t.node["lhs"]
+                    if l.get("k") == "mem" and (l.get("t") or "") in ("bool", "_Bool") and const_of(f_.expand(t.node["rhs"])) not in (None, 0):
+                        fileflags[file].add(last_field(l))
+
+    def reaches_fn(h, target, depth=0):
+        for c in h.calls():
+            if c.node.get("fn") == target.name:
+                return True
+            k = prog.resolve(h, c.node["fn"]) if c.node.get("fn") else None
+            if depth < 2 and k is not None and k.file == h.file and k.static and not k.cfg_failed and k is not h and reaches_fn(k, target, depth + 1):
+                return True
+        return False
+    # Drains that run when nobody can be inside the object any more: the fini slots (called after the last reference is
+    # gone), and the sock_close slot if the core calls it again right before sock_fini.
+    late_roots = []
+    for slot in ("nni_proto_sock_ops.sock_fini", "nni_proto_ctx_ops.ctx_fini"):
+        late_roots += prog.slot_fns(slot)
+    for f in scope:
+        ind = [(c, last_field(f.expand(c.node.get("ind"))) if c.node.get("ind") is not None else None) for c in f.calls() if not c.node.get("fn")]
+        fin = [c for c, lf_ in ind if lf_ == "nni_proto_sock_ops.sock_fini"]
+        clo = {(c.b, c.i) for c, lf_ in ind if lf_ == "nni_proto_sock_ops.sock_close"}
+        if fin and clo and all(f.dominated_by((c.b, c.i), blocked=lambda b, i, e: (b, i) in clo) or
+                               not f.dominated_by((c.b, c.i), blocked=lambda b, i, e: False) and False for c in fin):
+            late_roots += prog.slot_fns("nni_proto_sock_ops.sock_close")
+            r.notes.append("%s calls the sock_close slot again before sock_fini: socket-level drains also run after the last reference" % f.name)
+    late = set()
+    for root in late_roots:
+        if root.cfg_failed:
+            continue
+        for k in [root] + [h for h in byfile[root.file] if h is not root and reaches_fn(root, h)]:
+            ls, fs_, _ = drains(prog, k)
+            late |= ls | fs_
+    for g in scope:
+        lists, fields, flags = drains(prog, g)
+        if not lists and not fields:
+            continue
+        flags |= fileflags[g.file]
+        # flags set by the slot function that calls this helper count too
+        for (c, site) in callers.get(g.name, []):
+            if c.file == g.file and not c.cfg_failed:
+                flags |= drains(prog, c)[2] | {last_field(t.node["lhs"]) for t in c.assigns() if t.node["lhs"].get("k") == "mem" and
+                                               (t.node["lhs"].get("t") or "") in ("bool", "_Bool") and const_of(c.expand(t.node["rhs"])) not in (None, 0)}
+
+        def guarded(h, pos, depth=0):
+            for bid, k, atom, val in G.edge_facts(h):
+                if atom.get("k") == "mem" and last_field(atom) in flags and not val and G.dominated(h, pos, {bid: k}):
+                    return True
+            if depth < 2 and h.static:
+                cs = [(c, s_) for (c, s_) in callers.get(h.name, []) if c.file == h.file and not c.cfg_failed and prog.resolve(c, h.name) is h]
+                return bool(cs) and all(guarded(c, (s_.b, s_.i), depth + 1) for c, s_ in cs)
+            return False
+        for h in byfile[g.file]:
+            if h is g or h.name.endswith(("_init", "_fini")):
+                continue
+            parks = []
+            for c in h.calls(PARK_CALLS):
+                lf = last_field(h.expand(c.node["args"][0])) if c.node["args"] else None
+                if lf in lists:
+                    parks.append(((c.b, c.i), c.line, lf))
+            for t in h.assigns():
+                l = t.node["lhs"]
+                if l.get("k") == "mem" and last_field(l) in fields and not is_null(h.expand(t.node["rhs"])):
+                    parks.append(((t.b, t.i), t.line, last_field(l)))
+            for pos, line, lf in parks:
+                if (h.name, line, lf) in done:
+                    continue
+                done.add((h.name, line, lf))
+                n += 1
+                # parked and then handed straight to the function that drains when the object is closed
+                served = {(c.b, c.i) for c in h.calls() if c.node.get("fn") == g.name or (
+                    (lambda k: k is not None and k.file == h.file and k.static and not k.cfg_failed and k is not h and reaches_fn(k, g))(
+                        prog.resolve(h, c.node["fn"]) if c.node.get("fn") else None))}
+                if lf in late:
+                    r.ob(h, "%s line %s: drained again when the last reference is gone (fini)" % (lf, line))
+                elif guarded(h, pos):
+                    r.ob(h, "%s line %s: parked only after the closed mark was tested" % (lf, line))
+                elif served and (h.exit, 0) not in h.reach((pos[0], pos[1] + 1), blocked=lambda b, i, e: (b, i) in served or (
+                        e is not None and any(m.get("k") == "call" and m.get("fn") == UNLOCK for m in walk(e)))):
+                    r.ob(h, "%s line %s: parked, then %s (which drains a closed object) runs in the same critical section" % (lf, line, g.name))
+                else:
+                    ctx.fail(r, h, "%s parked without a closed test" % lf, line,
+                             "%s parks an operation in %s at line %s without testing a flag set by %s, which completes everything "
+                             "parked there with NNG_ECLOSED: an operation submitted just after that drain stays pending forever"
+                             % (h.name, lf, line, g.name))
+    if n < 20:
+        raise AnalysisBroken("only %d park sites on drained lists found" % n)
+
+
 def rule_closeall(ctx):
     """C10.R5: a close / fini function looks at every parked-operation field it handles on every path"""
     from .. import guards as G
@@ -857,6 +1024,7 @@ def run(ctx):   # noqa: F811
     ctx.guard(rule_closeall)
     ctx.guard(rule_last_touch)
     ctx.guard(rule_unlinked)
+    ctx.guard(rule_no_park_after_close)
     ctx.guard(rule_wakeups)
     from . import c02
     ctx.guard(c02.rule_a7)
